@@ -1243,7 +1243,7 @@ func (repo *Repository) load(ctx context.Context, depth int) error {
 }
 
 func (repo *Repository) loadBranchHashHeights(ctx context.Context, branch *Branch) {
-	height := branch.parentHeight + 1
+	height := branch.PrunedLowestHeight()
 	for _, headerData := range branch.headers {
 		repo.heights[headerData.Hash] = height
 		height++
